@@ -49,7 +49,7 @@ const (
 	sigCreatedTime = "C11/memdb-created-in-same-tick-loses-flush" // repaired in /repo (035c997)
 	// two functions with different aggregates on one field in one statement (max(f), sum(f)):
 	// every aggregate array of a leaf is merged into every aggregate array of the next level.
-	sigMultiFunc = "C11/multi-function-same-field"
+	sigMultiFunc = "C12/merge-of-field-with-several-functions-mixes-aggregates" // repaired in /repo (2d5a3af)
 	// fn(f) with an aggregate other than the type's: points of one storage slot that live in
 	// different places (file / memory database / compressed buffer / write buffer) are combined with
 	// the function's aggregate instead of the type's, so the answer depends on flush placement.
@@ -91,7 +91,7 @@ const (
 	// a memory database that holds the metric but not the queried field / series hides the family's
 	// files, files that hold the metric but not the queried series hide the memory databases. While
 	// listed, result cells fed by such a family may be absent and their values are not checked.
-	sigNotFoundHides   = "C11/not-found-in-one-source-hides-the-family"
+	sigNotFoundHides   = "C10/family-filter-not-found-hides-files" // repaired in /repo (569f143)
 	sigReadDuringWrite = "C11/memdb-query-overlapping-a-write-misses-completed-points"
 )
 
@@ -168,7 +168,6 @@ type env struct {
 	reopens  int
 	lastTick int64
 
-	classes    map[string]int
 	registered map[string]bool
 
 	lastNotFound string // text of the "not found" error the last query returned ("" = none)
@@ -188,7 +187,7 @@ func newEnv(s int64) (*env, error) {
 	if err != nil {
 		return nil, err
 	}
-	e := &env{dir: dir, db: fmt.Sprintf("db%d", dbSeq.Add(1)), S: s, mdl: newModel(s), gen: map[int64]int{}, dirty: map[int64]bool{}, files: map[int64]int{}, classes: map[string]int{},
+	e := &env{dir: dir, db: fmt.Sprintf("db%d", dbSeq.Add(1)), S: s, mdl: newModel(s), gen: map[int64]int{}, dirty: map[int64]bool{}, files: map[int64]int{},
 		inFlush: map[int64]bool{}, lateDirty: map[int64]bool{}}
 	e.opt = node.DBOption(timeutil.Interval(s))
 	if err := e.start(); err != nil {
